@@ -66,6 +66,12 @@ func genNum(r *Rng, dyadicOnly bool) string {
 			return decOf(int64(r.Range(-2000, 2000))*125, 3)
 		}
 		return decOf(int64(r.Range(-2000, 2000))*1000+int64(r.Pick([]string{"499", "500", "501", "999", "1"})[0]-'0')*100+int64(r.Intn(100)), 3)
+	case 9:
+		// eight and nine significant digits next to an integer or a half: exact in float64, not in float32
+		if !dyadicOnly && r.Bool() {
+			return []string{"2.49999999", "3.00000001", "1.99999999", "7.99999999", "-2.50000001", "1234.5678", "0.30000001", "16777217.5", "-0.49999999", "99999.9999"}[r.Intn(10)]
+		}
+		return decOf(int64(r.Range(-9, 9))*5, 1)
 	default:
 		return decOf(int64(r.Range(-9, 9))*5, 1)
 	}
